@@ -10,6 +10,7 @@
 #ifndef VERIF_SCHED_HH
 #define VERIF_SCHED_HH
 #include "util/pcqueue.hh"
+#include "sched/procstate.hh"
 
 #include <atomic>
 #include <chrono>
@@ -21,6 +22,7 @@
 #include <string>
 #include <vector>
 #include <sched.h>
+#include <signal.h>
 #include <stdint.h>
 #include <unistd.h>
 
@@ -34,8 +36,8 @@ struct Step { int tid; int op; std::vector<int> enabled; };
 
 struct ThreadSt {
   enum State { RUNNING, AT_POINT, DONE };
-  State st; int op; const void *obj; bool granted; std::condition_variable cv;
-  ThreadSt() : st(RUNNING), op(-1), obj(0), granted(false) {}
+  State st; int op; const void *obj; bool granted; std::condition_variable cv; pid_t ktid;
+  ThreadSt() : st(RUNNING), op(-1), obj(0), granted(false), ktid(0) {}
 };
 
 class Scheduler {
@@ -57,7 +59,7 @@ class Scheduler {
   void Deactivate() { std::lock_guard<std::mutex> l(mu_); active_ = false; }
 
   static int &Tid() { static thread_local int tid = -1; return tid; }
-  void ThreadBegin(int tid) { Tid() = tid; }
+  void ThreadBegin(int tid) { Tid() = tid; std::lock_guard<std::mutex> l(mu_); threads_[tid]->ktid = procstate::ktid(); }
   void ThreadEnd() {
     std::unique_lock<std::mutex> l(mu_);
     threads_[Tid()]->st = ThreadSt::DONE;
@@ -75,13 +77,23 @@ class Scheduler {
     int prev = -1;
     for (;;) {
       // wait for quiescence
-      bool ok = ctl_cv_.wait_for(l, std::chrono::milliseconds((long)(stuck_seconds * 1000)), [&] {
-        for (size_t i = 0; i < threads_.size(); ++i) if (threads_[i]->st == ThreadSt::RUNNING) return false;
-        return true; });
-      if (!ok) {
-        std::string r = "stuck";
-        for (size_t i = 0; i < threads_.size(); ++i) if (threads_[i]->st == ThreadSt::RUNNING) { char b[64]; snprintf(b, sizeof b, " t%zu-after-op%d", i, threads_[i]->op); r += b; }
-        return r;
+      // Progress based: a granted thread that has not reached its next point is "stuck" only if it is parked in futex (blocked in
+      // the real primitive although the shadow state enabled it) sample after sample; while it is runnable we keep waiting.
+      int parked_samples = 0;
+      for (;;) {
+        bool ok = ctl_cv_.wait_for(l, std::chrono::milliseconds(500), [&] {
+          for (size_t i = 0; i < threads_.size(); ++i) if (threads_[i]->st == ThreadSt::RUNNING) return false;
+          return true; });
+        if (ok) break;
+        bool all_parked = true;
+        for (size_t i = 0; i < threads_.size(); ++i)
+          if (threads_[i]->st == ThreadSt::RUNNING && !(threads_[i]->ktid && procstate::thread_parked(threads_[i]->ktid))) all_parked = false;
+        parked_samples = all_parked ? parked_samples + 1 : 0;
+        if (parked_samples >= (int)(stuck_seconds * 2)) {
+          std::string r = "stuck";
+          for (size_t i = 0; i < threads_.size(); ++i) if (threads_[i]->st == ThreadSt::RUNNING) { char b[64]; snprintf(b, sizeof b, " t%zu-after-op%d", i, threads_[i]->op); r += b; }
+          return r;
+        }
       }
       std::vector<int> enabled;
       bool any = false;
@@ -114,6 +126,8 @@ class Scheduler {
     }
   }
   const std::vector<Step> &Trace() const { return trace_; }
+  // initial semaphore values announced since the last call: (empty_, used_) per PCQueue constructed, in construction order
+  std::vector<std::size_t> TakeInitLog() { std::lock_guard<std::mutex> l(mu_); std::vector<std::size_t> r; r.swap(init_log_); return r; }
   long SemCount(const void *obj) { std::lock_guard<std::mutex> l(mu_); return sem_[obj]; }
 
   static void Hook(const void *queue, int op, const void *obj, std::size_t arg) { Get().OnPoint(queue, op, obj, arg); }
@@ -122,7 +136,13 @@ class Scheduler {
  private:
   Scheduler() : active_(false), jitter_(false), jitter_seed_(0), counter_(0) {}
   void OnPoint(const void *, int op, const void *obj, std::size_t arg) {
-    if (op == util::verif::kSemInit) { std::lock_guard<std::mutex> l(mu_); sem_[obj] = (long)arg; return; }
+    if (op == util::verif::kSemInit) { std::lock_guard<std::mutex> l(mu_); sem_[obj] = (long)arg; init_log_.push_back(arg); return; }
+    // worker threads take the harness's SIGUSR1 (no-op handler without SA_RESTART); the main thread keeps it blocked
+    static thread_local bool unblocked = false;
+    if (!unblocked) {
+      unblocked = true;
+      if (procstate::ktid() != getpid()) { sigset_t m; sigemptyset(&m); sigaddset(&m, SIGUSR1); pthread_sigmask(SIG_UNBLOCK, &m, NULL); }
+    }
     int tid = Tid();
     if (tid < 0 || !active_) {
       if (jitter_) {
@@ -146,6 +166,7 @@ class Scheduler {
   std::map<const void*, long> sem_;
   std::map<const void*, bool> held_;
   std::vector<Step> trace_;
+  std::vector<std::size_t> init_log_;
   std::atomic<bool> active_;
   std::atomic<bool> jitter_;
   uint64_t jitter_seed_;
